@@ -120,7 +120,7 @@ func c03CheckOutput(in, out []byte, nsigs int) (kind, msg string) {
 }
 
 func checkC03(r *mon.Run) {
-	r.Rule = "histories of 1..4 signing steps over well-formed images (all length residues mod 8, PE32/PE32+, trailing data, >32/64 KiB, the sbsign-signed fixture) × key sizes 2048/3072/4096 × minted certificates with distinct (issuer, serial); per step 'same key again / another key' and 'serialise+re-parse / keep the object'; after every step the output bytes are read by the independent reader (preservation, zero padding, directory entry, table tiling, WIN_CERTIFICATE fields, DER length, embedded digest == unpadded spec digest of the output), Parse(out).Hash == Parse(in).Hash, Verify true for every certificate that signed and false for one that did not, independent verifier agrees, openssl verifies a subset. distinct = (len mod 8, had table, history shape, key sizes)"
+	r.Rule = "histories of 1..4 signing steps over well-formed images (all length residues mod 8, PE32/PE32+, trailing data, >32/64 KiB, the sbsign-signed fixture) × key sizes 2048/3072/4096 × minted certificates with distinct (issuer, serial); per step 'same key again / another key', 'serialise+re-parse / keep the object' and 'Sign / detached flow (look at the object, CreateSpcIndirectDataContent+SignPKCS7, AppendSignature)'; Bytes() must equal the stream of Open(); after every step the output bytes are read by the independent reader (preservation, zero padding, directory entry, table tiling, WIN_CERTIFICATE fields, DER length, embedded digest == unpadded spec digest of the output), Parse(out).Hash == Parse(in).Hash, Verify true for every certificate that signed and false for one that did not, independent verifier agrees, openssl verifies a subset. distinct = (len mod 8, had table, history shape, key sizes)"
 	r.Assume("the equal-issuer+serial/different-key pair of signers is reported under its own class key")
 	nh := r.N(60, 3000)
 	imgs, names := baseImages(r, "C03", r.N(24, 400))
